@@ -231,7 +231,7 @@ func (f *Frame) havocAll(why string) {
 		f.cur.mem.m[k].except = f.u.privateSnapshot()
 	}
 	f.havocMaps(&f.cur.mem, limit)
-	if fs := f.frameSpecActive(); fs != nil && !f.spec {
+	if f.writeChecksActive() {
 		f.u.addObl("frame", f.anchorFor("havoc:"+why), f.cur.reach, tb.False(), token.Position{}, "unmodelled effect ("+why+") cannot be shown to respect the assigns clause")
 	}
 }
@@ -286,7 +286,7 @@ func (f *Frame) callFunc(fn *ssa.Function, args [][]*Term, bindings [][]*Term, i
 	// spec mode or no contract: inline when possible
 	if len(fn.Blocks) > 0 && f.depth < maxInlineDepth && f.inlinable(fn) {
 		sub := &Frame{u: f.u, fn: fn, vals: map[ssa.Value][]*Term{}, spec: f.spec, depth: f.depth + 1,
-			anchor: f.anchorFor(anchor), freeVars: bindings, frame: f.frame, inl: f.inl}
+			anchor: f.anchorFor(anchor), freeVars: bindings, frame: f.frame, inl: f.inl, loopFrames: f.activeLoopFrames()}
 		if f.stub != nil {
 			sub.stub = &stubEval{old: f.stub.old, startCtr: f.stub.startCtr, oldLoads: map[ssa.Instruction]bool{}, oldCalls: map[ssa.Instruction]bool{}}
 		}
@@ -1180,7 +1180,7 @@ func (f *Frame) callByContract(fn *ssa.Function, con *Contract, args [][]*Term, 
 		u.addObl("pre", f.anchorFor(anchor), f.cur.reach, r, f.pos(in.Pos()), fmt.Sprintf("precondition %d of %s", i+1, con.Key()))
 	}
 	// frame: callee's assigns must be within ours
-	if fs := f.frameSpecActive(); fs != nil {
+	if f.writeChecksActive() {
 		if st.assignsAll {
 			u.addObl("frame", f.anchorFor(anchor), f.cur.reach, tb.False(), f.pos(in.Pos()), "callee may assign everything")
 		}
@@ -1273,7 +1273,7 @@ func (f *Frame) invokeByContract(con *Contract, c *ssa.CallCommon, iv []*Term, a
 	for i, r := range st.requires {
 		u.addObl("pre", f.anchorFor(anchor), f.cur.reach, r, f.pos(in.Pos()), fmt.Sprintf("precondition %d of %s", i+1, con.Key()))
 	}
-	if fs := f.frameSpecActive(); fs != nil {
+	if f.writeChecksActive() {
 		for _, r := range st.regions {
 			save := f.cur.reach
 			f.cur.reach = tb.And(save, r.cond)
